@@ -22,7 +22,7 @@ ASSUMPTIONS = ['environment values containing $ are excluded from the generated 
 
 VALS = ['', 'plain', '123', '1.5', 'true', 'null', 'No', '~', 'a=b', 'k=v=w', '{a}', '{', '}', '{$env:X', 'a b', ' lead', 'trail ', 'q"uote', "s'q", 'ünï', 'x:y', '- z', '# c',
         '[1]', '{"k": 1}', 'host=db port=5432', '{b}|{a}', '0x10', '1e3', '\\n', 'tab\there', 'a,b', '*', '&x', '!t', '%', '@', 'very long value ' * 3]
-SEGS = ['', 'a', '-', ' ', ':', '}', '} ', 'x}y', 'é', '/', '.', ', ', '=', '"', "'", '#', 'seg ', '()', '[]', '|', '\\', 'A:B ', '~', '*&!']
+SEGS = ['\n', 'l1\nl2', 'end\n', '', 'a', '-', ' ', ':', '}', '} ', 'x}y', 'é', '/', '.', ', ', '=', '"', "'", '#', 'seg ', '()', '[]', '|', '\\', 'A:B ', '~', '*&!']
 
 
 def env_for(group):
@@ -69,7 +69,7 @@ def gen_case(rng, i, tier):
                     elif r < 0.86 and repeat:
                         parts.append(('repeat', None, None))
                     elif r < 0.93:
-                        parts.append(('missing-path', 'no.such.path', None))
+                        parts.append(('missing-path', rng.choice(['no.such.path', 'VERIF_V0', 'VERIF_V3', 'HOME', 'PATH', 'nosuch']), None))
                     else:
                         parts.append(('missing-env', 'VERIF_UNSET_%d' % rng.randint(0, 9), None))
             uses.append({'kind': kind, 'parts': parts, 'at': 'u%d' % u, 'wrap': rng.choice([0, 0, 1, 2])})
